@@ -398,7 +398,7 @@ func genSessionSources(r *rand.Rand, t *Tree, id int) *SessionScn {
 	if chance(r, 0.3) {
 		argv = nil
 	}
-	h := r.Intn(6)
+	h := r.Intn(9)
 	iniN, _ := genIniText(r, t, 1+r.Intn(4), false, true, false)
 	iniD, _ := genIniText(r, t, 1+r.Intn(4), false, true, false)
 	switch h {
@@ -414,6 +414,31 @@ func genSessionSources(r *rand.Rand, t *Tree, id int) *SessionScn {
 		sc.Calls = append(sc.Calls, argsCall(argv...))
 	case 5: // as-defaults read with repeated keys, then the command line
 		sc.Calls = append(sc.Calls, iniCall(iniD+iniD, true), argsCall(argv...))
+	case 6: // as-defaults read, command line, another as-defaults read: what the command line set stays
+		iniD2, _ := genIniText(r, t, 1+r.Intn(4), false, true, false)
+		sc.Calls = append(sc.Calls, iniCall(iniD, true), argsCall(argv...), iniCall(iniD2, true))
+	default: // a longer history of three to five calls in any order (a second command line is built afresh)
+		for k, n := 0, 3+r.Intn(3); k < n; k++ {
+			switch r.Intn(3) {
+			case 0:
+				txt, _ := genIniText(r, t, 1+r.Intn(3), false, true, false)
+				sc.Calls = append(sc.Calls, iniCall(txt, false))
+			case 1:
+				txt, _ := genIniText(r, t, 1+r.Intn(3), false, true, false)
+				sc.Calls = append(sc.Calls, iniCall(txt, true))
+			default:
+				a2 := &Scenario{}
+				genArgv(rand.New(rand.NewSource(r.Int63())), t, a2)
+				av := make([]string, len(a2.Argv))
+				for i, a := range a2.Argv {
+					av[i] = a.String()
+				}
+				if chance(r, 0.3) {
+					av = nil
+				}
+				sc.Calls = append(sc.Calls, argsCall(av...))
+			}
+		}
 	}
 	return sc
 }
